@@ -361,3 +361,12 @@ def run(ck):
     from props import common as _common
 
     _common.import_results(ck, C09, "2", "dispatch_events", "7")
+    # ---- shared clauses demonstrated by seeding round 7 (the property broken from a distant module) --------------
+    from props import common as _c7
+    import importlib as _il
+    _m = lambda n: _il.import_module('props.' + n)
+    _c7.import_e3(ck, "7", lambda inst: True)  # a timer inside a TransientSource is re-armed by the wrapper's (re)registration
+    _c7.import_results(ck, _m("C07"), "4", "DispatcherInner", "7")  # a disable() after disable()+update() still reaches the timer
+    _c7.import_results(ck, _m("C07"), "4", "LoopHandle", "7")
+
+
